@@ -1184,10 +1184,408 @@ example : CanonOpt (some (.surd (.rat 1 2) (.rat 1 2) 5)) := by
   subst this; revert hdiv; decide
 
 
-/-! ### `to_int` of a surd — full statement, proved part -/
+/-! ### `to_int` / `floor` / `ceil` / `round` of a surd -/
 
-/-- FULL STATEMENT (not proved here): `to_int` of a canonical surd `a + b·√n` is its truncation
-toward zero, for the value taken at any positive square root `r` of `n` in an ordered field. -/
+
+/-- a square-free `n > 1` times a non-zero square is never a square (√n is irrational) -/
+theorem sqfree_mul_sq_ne_sq (n q s : Int) (hn : 1 < n) (hsq : SqFree n) (hq : q ≠ 0) :
+    q * q * n ≠ s * s := by
+  intro h
+  have hg0 : Int.gcd s q ≠ 0 := fun hg => hq (Int.gcd_eq_zero_iff.mp hg).2
+  have hgpos : 0 < Int.gcd s q := Nat.pos_of_ne_zero hg0
+  have hcop0 := Int.gcd_div_gcd_div_gcd (i := s) (j := q) hgpos
+  obtain ⟨s', hs'⟩ := Int.gcd_dvd_left s q
+  obtain ⟨q', hq'⟩ := Int.gcd_dvd_right s q
+  have hgz : (0 : ℤ) < (Int.gcd s q : ℤ) := by exact_mod_cast hgpos
+  generalize (Int.gcd s q : ℤ) = g at hs' hq' hgz hcop0
+  have hcop : Int.gcd s' q' = 1 := by
+    rwa [Int.ediv_eq_of_eq_mul_right (ne_of_gt hgz) hs', Int.ediv_eq_of_eq_mul_right (ne_of_gt hgz) hq'] at hcop0
+  subst hs' hq'
+  have h2 : q' * q' * n = s' * s' := by
+    have hgg : g * g ≠ 0 := mul_ne_zero (ne_of_gt hgz) (ne_of_gt hgz)
+    apply Int.eq_of_mul_eq_mul_left hgg
+    linarith [h]
+  -- natAbs level: b² ∣ a², coprime ⇒ b² = 1
+  have hc : Nat.Coprime s'.natAbs q'.natAbs := hcop
+  have hc2 : Nat.Coprime (q'.natAbs * q'.natAbs) (s'.natAbs * s'.natAbs) :=
+    Nat.Coprime.mul_left (Nat.Coprime.mul_right hc.symm hc.symm) (Nat.Coprime.mul_right hc.symm hc.symm)
+  have hd : q'.natAbs * q'.natAbs ∣ s'.natAbs * s'.natAbs := by
+    refine ⟨n.natAbs, ?_⟩
+    have := congrArg Int.natAbs h2
+    simp only [Int.natAbs_mul] at this
+    exact this.symm
+  have hb1 : q'.natAbs * q'.natAbs = 1 := Nat.Coprime.eq_one_of_dvd hc2 hd
+  have hqq : q' * q' = 1 := by
+    have : (q' * q').natAbs = 1 := by rw [Int.natAbs_mul]; exact hb1
+    have hnn := mul_self_nonneg q'
+    omega
+  rw [hqq, one_mul] at h2
+  have hs2 : 2 ≤ |s'| := by
+    by_contra hc'
+    have h1 : |s'| ≤ 1 := by omega
+    have h3 : s' * s' ≤ 1 := by
+      have := abs_mul_abs_self s'
+      nlinarith [abs_nonneg s']
+    omega
+  exact hsq |s'| hs2 ⟨1, by rw [abs_mul_abs_self, mul_one, h2]⟩
+
+section
+variable {K : Type} [Field K] [LinearOrder K] [IsStrictOrderedRing K]
+
+/-- the integer square root brackets any non-negative `w` with `w² = N` -/
+theorem isqrt_bracket (N : Int) (hN : 0 ≤ N) (w : K) (hw0 : 0 ≤ w) (hw : w * w = (N : K)) :
+    (((Nat.sqrt N.toNat : ℕ) : ℤ) : K) ≤ w ∧ w < (((Nat.sqrt N.toNat : ℕ) : ℤ) : K) + 1 := by
+  have h1 := Nat.sqrt_le N.toNat
+  have h2 := Nat.lt_succ_sqrt N.toNat
+  generalize Nat.sqrt N.toNat = s at h1 h2
+  have hNt : ((N.toNat : ℕ) : ℤ) = N := Int.toNat_of_nonneg hN
+  have e1 : ((s : ℤ) : K) * ((s : ℤ) : K) ≤ w * w := by
+    rw [hw]
+    have : (s : ℤ) * (s : ℤ) ≤ N := by rw [← hNt]; exact_mod_cast h1
+    exact_mod_cast this
+  have e2 : w * w < (((s : ℤ) : K) + 1) * (((s : ℤ) : K) + 1) := by
+    rw [hw]
+    have : N < ((s : ℤ) + 1) * ((s : ℤ) + 1) := by rw [← hNt]; exact_mod_cast h2
+    exact_mod_cast this
+  have hs0 : (0 : K) ≤ ((s : ℤ) : K) := by exact_mod_cast Int.natCast_nonneg s
+  constructor
+  · by_contra hc
+    have := mul_self_lt_mul_self hw0 (not_le.mp hc)
+    exact absurd e1 (not_le.mpr this)
+  · by_contra hc
+    have := mul_self_le_mul_self (by linarith) (not_lt.mp hc)
+    exact absurd e2 (not_lt.mpr this)
+
+/-- floor of `y / d` from the floor of `y` (`d` a positive integer, `y ≥ 0`) -/
+theorem tdiv_floor_compose (y : K) (m d : Int) (hd : 0 < d) (hm0 : 0 ≤ m) (h1 : (m : K) ≤ y)
+    (h2 : y < (m : K) + 1) :
+    ((m.tdiv d : ℤ) : K) ≤ y / (d : K) ∧ y / (d : K) < ((m.tdiv d : ℤ) : K) + 1 := by
+  have hdK : (0 : K) < (d : K) := by exact_mod_cast hd
+  rw [Int.tdiv_eq_ediv_of_nonneg hm0]
+  have a1 : m / d * d ≤ m := Int.ediv_mul_le m (ne_of_gt hd)
+  have a2 : m < (m / d + 1) * d := Int.lt_ediv_add_one_mul_self m hd
+  have a2' : m + 1 ≤ (m / d + 1) * d := by omega
+  constructor
+  · rw [le_div_iff₀ hdK]
+    have : ((m / d * d : ℤ) : K) ≤ (m : K) := by exact_mod_cast a1
+    push_cast at this; linarith
+  · rw [div_lt_iff₀ hdK]
+    have : ((m + 1 : ℤ) : K) ≤ (((m / d + 1) * d : ℤ) : K) := by exact_mod_cast a2'
+    push_cast at this; linarith
+
+/-- what `to_int` computes for a non-negative `p + q·√n` (before the sign is reapplied) -/
+def surdFloor (p q : Rt) (n : Int) : Int :=
+  (if cmp (q.n * p.d) 0 = 1
+    then p.n * q.d + ((Nat.sqrt (q.n * p.d * (q.n * p.d) * n).toNat : ℕ) : ℤ)
+    else p.n * q.d - (((Nat.sqrt (q.n * p.d * (q.n * p.d) * n).toNat : ℕ) : ℤ) + 1)).tdiv (p.d * q.d)
+
+theorem rt_castK (p : Rt) : ((p.toQ : ℚ) : K) = (p.n : K) / (p.d : K) := by
+  unfold QM.Num.Rt.toQ; push_cast; rfl
+
+theorem surdFloor_spec (p q : Rt) (hp : 0 < p.d) (hq : 0 < q.d) (hq0 : q.n ≠ 0) (n : Int) (hn : 1 < n)
+    (hsq : SqFree n) (r : K) (hr0 : 0 < r) (hr : r * r = (n : K))
+    (hv : 0 ≤ ((p.toQ : ℚ) : K) + ((q.toQ : ℚ) : K) * r) :
+    ((surdFloor p q n : ℤ) : K) ≤ ((p.toQ : ℚ) : K) + ((q.toQ : ℚ) : K) * r ∧
+    ((p.toQ : ℚ) : K) + ((q.toQ : ℚ) : K) * r < ((surdFloor p q n : ℤ) : K) + 1 := by
+  have hpK : (0 : K) < (p.d : K) := by exact_mod_cast hp
+  have hqK : (0 : K) < (q.d : K) := by exact_mod_cast hq
+  have hD : 0 < p.d * q.d := Int.mul_pos hp hq
+  have hDK : (0 : K) < ((p.d * q.d : ℤ) : K) := by exact_mod_cast hD
+  -- the value as y / D
+  have hval : ((p.toQ : ℚ) : K) + ((q.toQ : ℚ) : K) * r =
+      (((p.n * q.d : ℤ) : K) + ((q.n * p.d : ℤ) : K) * r) / ((p.d * q.d : ℤ) : K) := by
+    rw [rt_castK, rt_castK]; push_cast; field_simp
+  rw [hval] at hv ⊢
+  generalize hP : p.n * q.d = P at *
+  generalize hQ : q.n * p.d = Q at *
+  have hQ0 : Q ≠ 0 := by rw [← hQ]; exact mul_ne_zero hq0 (ne_of_gt hp)
+  have hy0 : 0 ≤ (P : K) + (Q : K) * r := by
+    by_contra hc
+    have := div_neg_of_neg_of_pos (not_le.mp hc) hDK
+    exact absurd hv (not_le.mpr this)
+  have hN : 0 ≤ Q * Q * n := Int.mul_nonneg (mul_self_nonneg Q) (by omega)
+  unfold surdFloor
+  rw [hP, hQ]
+  generalize hs : ((Nat.sqrt (Q * Q * n).toNat : ℕ) : ℤ) = s
+  by_cases hpos : 0 < Q
+  · have hQK : (0 : K) < (Q : K) := by exact_mod_cast hpos
+    have hw : ((Q : K) * r) * ((Q : K) * r) = ((Q * Q * n : ℤ) : K) := by
+      push_cast; rw [← hr]; ring
+    obtain ⟨b1, b2⟩ := isqrt_bracket (K := K) (Q * Q * n) hN ((Q : K) * r) (le_of_lt (mul_pos hQK hr0)) hw
+    rw [hs] at b1 b2
+    have hc : cmp Q 0 = 1 := cmp_eq_one.mpr hpos
+    simp only [hc, if_true]
+    have hm0 : 0 ≤ P + s := by
+      have : ((-1 : ℤ) : K) < ((P + s : ℤ) : K) := by push_cast; linarith
+      have := Int.cast_lt.mp this; omega
+    exact tdiv_floor_compose _ (P + s) _ hD hm0 (by push_cast; linarith) (by push_cast; linarith)
+  · have hneg : Q < 0 := by omega
+    have hQK : (Q : K) < 0 := by exact_mod_cast hneg
+    have hw0 : 0 ≤ -(Q : K) * r := le_of_lt (mul_pos (by linarith) hr0)
+    have hw : (-(Q : K) * r) * (-(Q : K) * r) = ((Q * Q * n : ℤ) : K) := by
+      push_cast; rw [← hr]; ring
+    obtain ⟨b1, b2⟩ := isqrt_bracket (K := K) (Q * Q * n) hN (-(Q : K) * r) hw0 hw
+    rw [hs] at b1 b2
+    -- strictness: √n is irrational
+    have hstrict : (s : K) < -(Q : K) * r := by
+      rcases lt_or_eq_of_le b1 with h | h
+      · exact h
+      · exfalso
+        have : ((Q * Q * n : ℤ) : K) = ((s * s : ℤ) : K) := by rw [← hw, ← h]; push_cast; ring
+        exact sqfree_mul_sq_ne_sq n Q s hn hsq hQ0 (Int.cast_injective this)
+    have hc : ¬ cmp Q 0 = 1 := by rw [cmp_eq_one]; omega
+    simp only [hc, if_false]
+    have hm0 : 0 ≤ P - (s + 1) := by
+      have : ((-1 : ℤ) : K) < ((P - (s + 1) : ℤ) : K) := by push_cast; linarith
+      have := Int.cast_lt.mp this; omega
+    exact tdiv_floor_compose _ (P - (s + 1)) _ hD hm0 (by push_cast; linarith) (by push_cast; linarith)
+
+end
+
+theorem rneg_eq (x : Rt) (hx : x.d ≠ 0) : rneg x = .ok (reduceP (-x.n) x.d) := by
+  simp [rneg, reduce_eq hx]
+
+/-- `to_int` of a surd, as a closed expression -/
+theorem toInt_surd_eq (a b : Coeff) (n : Int) (hx : Canon (.surd a b n)) :
+    Num.toInt (some (.surd a b n)) =
+      .ok (some (surdSign (toRational a).toQ (toRational b).toQ n *
+        (if cmp (surdSign (toRational a).toQ (toRational b).toQ n) 0 = -1
+          then surdFloor (reduceP (-(toRational a).n) (toRational a).d)
+                 (reduceP (-(toRational b).n) (toRational b).d) n
+          else surdFloor (toRational a) (toRational b) n))) := by
+  obtain ⟨ha, hb, hb0, hn, hsq⟩ := hx
+  have hda := canonCoeff_d_pos ha
+  have hdb := canonCoeff_d_pos hb
+  have hs := ssign_eq (toRational a) (toRational b) n hda hdb
+  have tail : ∀ (sgn : Int) (p q : Rt), 0 < p.d → 0 < q.d →
+      (match (p, q) with
+        | (⟨pa, qa⟩, ⟨pb, qb⟩) => do
+          let p ← iMul pa qb
+          let q ← iMul pb qa
+          let d ← iMul qa qb
+          let qq ← iMul q q
+          let qqn ← iMul qq n
+          let s ← iSqrt qqn
+          let c1 ← iCompare q 0
+          let nlo ← (if c1 = 1 then iAdd p s
+            else do
+              let s1 ← iAdd s 1
+              iSub p s1)
+          let t ← iDiv nlo d
+          let r ← iMul sgn t
+          pure (some r) : Res (Option Int)) = .ok (some (sgn * surdFloor p q n)) := by
+    intro sgn p q hp hq
+    obtain ⟨pa, qa⟩ := p
+    obtain ⟨pb, qb⟩ := q
+    simp only at hp hq
+    have hd : qa * qb ≠ 0 := ne_of_gt (Int.mul_pos hp hq)
+    have hnn : 0 ≤ pb * qa * (pb * qa) * n := Int.mul_nonneg (mul_self_nonneg _) (by omega)
+    by_cases hc : cmp (pb * qa) 0 = 1
+    · simp [iSqrt_eq hnn, hc, iDiv_eq hd, surdFloor]
+    · simp [iSqrt_eq hnn, hc, iDiv_eq hd, surdFloor]
+  by_cases h : cmp (surdSign (toRational a).toQ (toRational b).toQ n) 0 = -1
+  · have c1 := (reduceP_spec (n := -(toRational a).n) (ne_of_gt hda)).1
+    have c2 := (reduceP_spec (n := -(toRational b).n) (ne_of_gt hdb)).1
+    simp only [Num.toInt, hs, ok_bind, iCompare_eq, h, if_true, rneg_eq _ (ne_of_gt hda),
+      rneg_eq _ (ne_of_gt hdb), pure_eq]
+    exact tail _ _ _ c1.1 c2.1
+  · simp only [Num.toInt, hs, ok_bind, iCompare_eq, h, if_false, pure_eq]
+    exact tail _ _ _ hda hdb
+
+/-- **`to_int` of a surd truncates toward zero** (this is `toInt_surd_Statement`): for the value
+`v = a + b·r` at any positive square root `r` of `n` in an ordered field (`r = √n` in ℝ),
+`t ≤ v < t + 1` when `v ≥ 0` and `t − 1 < v ≤ t` when `v ≤ 0`. Uses the irrationality of `√n`
+for square-free `n > 1` (`sqfree_mul_sq_ne_sq`) in the branch that subtracts `s + 1`. -/
+theorem toInt_surd_spec {K : Type} [Field K] [LinearOrder K] [IsStrictOrderedRing K]
+    (a b : Coeff) (n : Int) (r : K) (hx : Canon (.surd a b n)) (hr0 : 0 < r) (hr : r * r = (n : K)) :
+    ∃ t : Int, Num.toInt (some (.surd a b n)) = .ok (some t) ∧
+      ((0 ≤ (coeffQ a : K) + (coeffQ b : K) * r →
+          (t : K) ≤ (coeffQ a : K) + (coeffQ b : K) * r ∧ (coeffQ a : K) + (coeffQ b : K) * r < t + 1) ∧
+       ((coeffQ a : K) + (coeffQ b : K) * r ≤ 0 →
+          (t : K) - 1 < (coeffQ a : K) + (coeffQ b : K) * r ∧ (coeffQ a : K) + (coeffQ b : K) * r ≤ t)) := by
+  refine ⟨_, toInt_surd_eq a b n hx, ?_⟩
+  obtain ⟨ha, hb, hb0, hn, hsq⟩ := hx
+  have hda := canonCoeff_d_pos ha
+  have hdb := canonCoeff_d_pos hb
+  obtain ⟨s1, s0, sm⟩ := surdSign_sound (K := K) (toRational a).toQ (toRational b).toQ n r hr0 hr
+  have hbn : (toRational b).n ≠ 0 := by
+    intro h; apply hb0; simp [coeffQ, QM.Num.Rt.toQ, h]
+  unfold coeffQ
+  generalize hsg : surdSign (toRational a).toQ (toRational b).toQ n = sg at *
+  generalize hv : ((toRational a).toQ : K) + ((toRational b).toQ : K) * r = v at *
+  rcases lt_trichotomy v 0 with hneg | hzero | hpos
+  · -- negative value: operands are negated first
+    have e : sg = -1 := sm.mpr hneg
+    subst e
+    have hc : cmp (-1) 0 = -1 := by decide
+    simp only [hc, if_true]
+    obtain ⟨ca, va⟩ := reduceP_spec (n := -(toRational a).n) (ne_of_gt hda)
+    obtain ⟨cb, vb⟩ := reduceP_spec (n := -(toRational b).n) (ne_of_gt hdb)
+    have va' : (reduceP (-(toRational a).n) (toRational a).d).toQ = -(toRational a).toQ := by
+      rw [va]; unfold QM.Num.Rt.toQ; push_cast; ring
+    have vb' : (reduceP (-(toRational b).n) (toRational b).d).toQ = -(toRational b).toQ := by
+      rw [vb]; unfold QM.Num.Rt.toQ; push_cast; ring
+    have hbn' : (reduceP (-(toRational b).n) (toRational b).d).n ≠ 0 := by
+      intro h
+      have : (reduceP (-(toRational b).n) (toRational b).d).toQ = 0 := by simp [QM.Num.Rt.toQ, h]
+      rw [vb'] at this
+      apply hb0; simpa [coeffQ] using this
+    have hval : (((reduceP (-(toRational a).n) (toRational a).d).toQ : ℚ) : K) +
+        (((reduceP (-(toRational b).n) (toRational b).d).toQ : ℚ) : K) * r = -v := by
+      rw [va', vb', ← hv]; push_cast; ring
+    obtain ⟨f1, f2⟩ := surdFloor_spec (K := K) _ _ ca.1 cb.1 hbn' n hn hsq r hr0 hr (by rw [hval]; linarith)
+    rw [hval] at f1 f2
+    refine ⟨fun h => absurd h (not_le.mpr hneg), fun _ => ?_⟩
+    push_cast; constructor <;> linarith
+  · have e : sg = 0 := s0.mpr hzero
+    subst e
+    rw [hzero]
+    simp
+  · have e : sg = 1 := s1.mpr hpos
+    subst e
+    have hc : ¬ cmp 1 0 = -1 := by decide
+    simp only [hc, if_false]
+    obtain ⟨f1, f2⟩ := surdFloor_spec (K := K) _ _ hda hdb hbn n hn hsq r hr0 hr (by rw [hv]; exact le_of_lt hpos)
+    rw [hv] at f1 f2
+    refine ⟨fun _ => ?_, fun h => absurd h (not_le.mpr hpos)⟩
+    push_cast; constructor <;> linarith
+
+/-- comparison of a canonical surd with an integer is the sign of the difference of the values -/
+theorem compare_surd_int {K : Type} [Field K] [LinearOrder K] [IsStrictOrderedRing K]
+    (a b : Coeff) (n t : Int) (r : K) (hx : Canon (.surd a b n)) (hr0 : 0 < r) (hr : r * r = (n : K)) :
+    ∃ c : Int, Num.compare (some (.surd a b n)) (some (.int t)) = .ok (some c) ∧
+      (c = 1 ↔ (t : K) < (coeffQ a : K) + (coeffQ b : K) * r) ∧
+      (c = 0 ↔ (coeffQ a : K) + (coeffQ b : K) * r = (t : K)) ∧
+      (c = -1 ↔ (coeffQ a : K) + (coeffQ b : K) * r < (t : K)) := by
+  have hc : Compatible (.surd a b n) (.int t) := Or.inr (Or.inl rfl)
+  have hsr : sharedRadical (.surd a b n) (.int t) = n := by
+    have : qb (.surd a b n) ≠ 0 := hx.2.2.1
+    simp [sharedRadical, this, rad, explode]
+  have h := surd_compare_spec (.surd a b n) (.int t) hx trivial (Or.inl trivial) hc
+  rw [hsr] at h
+  refine ⟨_, h, ?_⟩
+  obtain ⟨s1, s0, sm⟩ := surdSign_sound (K := K) (qa (.surd a b n) - qa (.int t)) (qb (.surd a b n) - qb (.int t)) n r hr0 hr
+  have e : (((qa (.surd a b n) - qa (.int t) : ℚ)) : K) + (((qb (.surd a b n) - qb (.int t) : ℚ)) : K) * r =
+      ((coeffQ a : K) + (coeffQ b : K) * r) - (t : K) := by
+    simp only [qa, qb, toQsqrt]; push_cast; ring
+  rw [e] at s1 s0 sm
+  exact ⟨s1.trans sub_pos, s0.trans sub_eq_zero, sm.trans sub_neg⟩
+
+/-- `floor` of a surd: the greatest integer below the value -/
+theorem floor_surd_spec {K : Type} [Field K] [LinearOrder K] [IsStrictOrderedRing K]
+    (a b : Coeff) (n : Int) (r : K) (hx : Canon (.surd a b n)) (hr0 : 0 < r) (hr : r * r = (n : K)) :
+    ∃ f : Int, Num.floor (some (.surd a b n)) = .ok (some f) ∧
+      (f : K) ≤ (coeffQ a : K) + (coeffQ b : K) * r ∧ (coeffQ a : K) + (coeffQ b : K) * r < f + 1 := by
+  obtain ⟨t, ht, htr⟩ := toInt_surd_spec a b n r hx hr0 hr
+  obtain ⟨c, hc, c1, c0, cm⟩ := compare_surd_int a b n t r hx hr0 hr
+  generalize (coeffQ a : K) + (coeffQ b : K) * r = v at *
+  by_cases hlt : v < t
+  · have e : c = -1 := cm.mpr hlt
+    refine ⟨t - 1, by simp [Num.floor, ht, hc, e], ?_⟩
+    have hneg : v ≤ 0 := by
+      by_contra h
+      have := (htr.1 (le_of_lt (not_le.mp h))).1; linarith
+    have := htr.2 hneg
+    push_cast; constructor <;> linarith
+  · have e : c ≠ -1 := fun h => hlt (cm.mp h)
+    refine ⟨t, by simp [Num.floor, ht, hc, e], not_lt.mp hlt, ?_⟩
+    by_cases h0 : 0 ≤ v
+    · exact (htr.1 h0).2
+    · have := (htr.2 (le_of_lt (not_le.mp h0))).2; linarith
+
+/-- `ceil` of a surd: the least integer above the value -/
+theorem ceil_surd_spec {K : Type} [Field K] [LinearOrder K] [IsStrictOrderedRing K]
+    (a b : Coeff) (n : Int) (r : K) (hx : Canon (.surd a b n)) (hr0 : 0 < r) (hr : r * r = (n : K)) :
+    ∃ f : Int, Num.ceil (some (.surd a b n)) = .ok (some f) ∧
+      (f : K) - 1 < (coeffQ a : K) + (coeffQ b : K) * r ∧ (coeffQ a : K) + (coeffQ b : K) * r ≤ f := by
+  obtain ⟨t, ht, htr⟩ := toInt_surd_spec a b n r hx hr0 hr
+  obtain ⟨c, hc, c1, c0, cm⟩ := compare_surd_int a b n t r hx hr0 hr
+  generalize (coeffQ a : K) + (coeffQ b : K) * r = v at *
+  by_cases hgt : (t : K) < v
+  · have e : c = 1 := c1.mpr hgt
+    refine ⟨t + 1, by simp [Num.ceil, ht, hc, e], ?_⟩
+    have hpos : 0 ≤ v := by
+      by_contra h
+      have := (htr.2 (le_of_lt (not_le.mp h))).2; linarith
+    have := htr.1 hpos
+    push_cast; constructor <;> linarith
+  · have e : c ≠ 1 := fun h => hgt (c1.mp h)
+    refine ⟨t, by simp [Num.ceil, ht, hc, e], ?_, not_lt.mp hgt⟩
+    by_cases h0 : v ≤ 0
+    · exact (htr.2 h0).1
+    · have := (htr.1 (le_of_lt (not_le.mp h0))).1; linarith
+
+/-- the norm `a² − b²·n` of a canonical surd is never zero, so dividing by a canonical surd never
+gives nil (only a zero integer / rational divisor does) -/
+theorem surd_norm_ne_zero (a b : Coeff) (n : Int) (hx : Canon (.surd a b n)) :
+    coeffQ a * coeffQ a - coeffQ b * coeffQ b * (n : ℚ) ≠ 0 := by
+  obtain ⟨ha, hb, hb0, hn, hsq⟩ := hx
+  have hda := canonCoeff_d_pos ha
+  have hdb := canonCoeff_d_pos hb
+  intro h
+  have hbn : (toRational b).n ≠ 0 := by
+    intro h'; apply hb0; simp [coeffQ, QM.Num.Rt.toQ, h']
+  have hq : (toRational b).n * (toRational a).d ≠ 0 := mul_ne_zero hbn (ne_of_gt hda)
+  apply sqfree_mul_sq_ne_sq n ((toRational b).n * (toRational a).d) ((toRational a).n * (toRational b).d) hn hsq hq
+  have hdaq : ((toRational a).d : ℚ) ≠ 0 := by exact_mod_cast (ne_of_gt hda)
+  have hdbq : ((toRational b).d : ℚ) ≠ 0 := by exact_mod_cast (ne_of_gt hdb)
+  have : (((toRational b).n * (toRational a).d * ((toRational b).n * (toRational a).d) * n : ℤ) : ℚ) =
+      (((toRational a).n * (toRational b).d * ((toRational a).n * (toRational b).d) : ℤ) : ℚ) := by
+    unfold coeffQ QM.Num.Rt.toQ at h
+    field_simp at h
+    push_cast
+    linarith
+  exact_mod_cast this
+
+/-- comparison of a canonical surd with a canonical integer / rational -/
+theorem compare_surd_coeff {K : Type} [Field K] [LinearOrder K] [IsStrictOrderedRing K]
+    (a b : Coeff) (n : Int) (y : Num) (r : K) (hx : Canon (.surd a b n)) (hy : Canon y) (ny : ¬ isSurd y)
+    (hr0 : 0 < r) (hr : r * r = (n : K)) :
+    ∃ c : Int, Num.compare (some (.surd a b n)) (some y) = .ok (some c) ∧
+      (c = 1 ↔ ((toQ y : ℚ) : K) < (coeffQ a : K) + (coeffQ b : K) * r) ∧
+      (c = 0 ↔ (coeffQ a : K) + (coeffQ b : K) * r = ((toQ y : ℚ) : K)) ∧
+      (c = -1 ↔ (coeffQ a : K) + (coeffQ b : K) * r < ((toQ y : ℚ) : K)) := by
+  have hqb : qb y = 0 := (explode_spec y hy).2.2.2.2.2 ny
+  have hqa : qa y = toQ y := by unfold qa; rw [toQsqrt_of_not_surd ny]
+  have hc : Compatible (.surd a b n) y := Or.inr (Or.inl hqb)
+  have hsr : sharedRadical (.surd a b n) y = n := by
+    have : qb (.surd a b n) ≠ 0 := hx.2.2.1
+    simp [sharedRadical, this, rad, explode]
+  have h := surd_compare_spec (.surd a b n) y hx hy (Or.inl trivial) hc
+  rw [hsr] at h
+  refine ⟨_, h, ?_⟩
+  obtain ⟨s1, s0, sm⟩ := surdSign_sound (K := K) (qa (.surd a b n) - qa y) (qb (.surd a b n) - qb y) n r hr0 hr
+  have e : (((qa (.surd a b n) - qa y : ℚ)) : K) + (((qb (.surd a b n) - qb y : ℚ)) : K) * r =
+      ((coeffQ a : K) + (coeffQ b : K) * r) - ((toQ y : ℚ) : K) := by
+    rw [hqa, hqb]; simp only [qa, qb, toQsqrt]; push_cast; ring
+  rw [e] at s1 s0 sm
+  exact ⟨s1.trans sub_pos, s0.trans sub_eq_zero, sm.trans sub_neg⟩
+
+/-- `round` of a surd: the nearest integer -/
+theorem round_surd_spec {K : Type} [Field K] [LinearOrder K] [IsStrictOrderedRing K]
+    (a b : Coeff) (n : Int) (r : K) (hx : Canon (.surd a b n)) (hr0 : 0 < r) (hr : r * r = (n : K)) :
+    ∃ z : Int, Num.round (some (.surd a b n)) = .ok (some z) ∧
+      (z : K) - 1 / 2 ≤ (coeffQ a : K) + (coeffQ b : K) * r ∧
+      (coeffQ a : K) + (coeffQ b : K) * r ≤ (z : K) + 1 / 2 := by
+  obtain ⟨f, hf, hf1, hf2⟩ := floor_surd_spec a b n r hx hr0 hr
+  obtain ⟨c, hc, c1, c0, cm⟩ := compare_surd_coeff a b n (.rat (f * 2 + 1) 2) r hx (canon_half f) (fun h => h) hr0 hr
+  have hmid : ((toQ (.rat (f * 2 + 1) 2) : ℚ) : K) = (f : K) + 1 / 2 := by
+    unfold toQ; push_cast; ring
+  rw [hmid] at c1 c0 cm
+  generalize (coeffQ a : K) + (coeffQ b : K) * r = v at *
+  rcases lt_trichotomy v ((f : K) + 1 / 2) with h | h | h
+  · have e : c = -1 := cm.mpr h
+    exact ⟨f, by simp [Num.round, hf, hc, e], by linarith, by linarith⟩
+  · have e : c = 0 := c0.mpr h
+    by_cases hneg : f < 0
+    · exact ⟨f, by simp [Num.round, hf, hc, e, cmp_eq_neg_one, hneg], by linarith, by linarith⟩
+    · exact ⟨f + 1, by simp [Num.round, hf, hc, e, cmp_eq_neg_one, hneg], by push_cast; linarith,
+        by push_cast; linarith⟩
+  · have e : c = 1 := c1.mpr h
+    exact ⟨f + 1, by simp [Num.round, hf, hc, e], by push_cast; linarith, by push_cast; linarith⟩
+
+
+/-- the statement announced in the design, as one proposition over all ordered fields -/
 def toInt_surd_Statement : Prop :=
   ∀ (K : Type) [Field K] [LinearOrder K] [IsStrictOrderedRing K] (a b : Coeff) (n : Int) (r : K),
     Canon (.surd a b n) → 0 < r → r * r = (n : K) →
@@ -1197,12 +1595,13 @@ def toInt_surd_Statement : Prop :=
        ((coeffQ a : K) + (coeffQ b : K) * r ≤ 0 →
           (t : K) - 1 < (coeffQ a : K) + (coeffQ b : K) * r ∧ (coeffQ a : K) + (coeffQ b : K) * r ≤ t))
 
-/-- Proved part of `toInt_surd_Statement`: `to_int` of a canonical surd is total — it returns an
-integer, the integer square root is never applied to a negative and the final division never
-divides by zero. Missing: the bracketing argument `s ≤ |Q|·√n < s + 1` for `s = isqrt(Q²·n)` and
-the floor-division step (the value-level claim is checked by the differential and the exact host
-oracle, including the isqrt boundary stream). -/
-theorem toInt_surd_partial (a b : Coeff) (n : Int) (hx : Canon (.surd a b n)) :
-    ∃ t, Num.toInt (some (.surd a b n)) = .ok (some t) := toInt_surd_ok a b n hx
+theorem toInt_surd_full : toInt_surd_Statement :=
+  fun _ _ _ _ a b n r hx hr0 hr => toInt_surd_spec a b n r hx hr0 hr
+
+example : Canon (.surd (.int (-3)) (.int 1) 2) := by
+  refine ⟨trivial, trivial, by simp [coeffQ, toRational, QM.Num.Rt.toQ], by decide, ?_⟩
+  intro e he hdiv
+  have h1 : e * e ≤ 2 := Int.le_of_dvd (by decide) hdiv
+  nlinarith
 
 end C20
